@@ -159,7 +159,7 @@ def gen_cases(seed, n, limit=32, prefix="g"):
         if weighted and rng2.below(100) < 35:
             # dyadic weight scale applied inside the harness (see centgen.py): the weighted coefficients are
             # invariant under it, so the model and the oracle run on the unscaled cubes
-            case["wscale"] = rng2.pick([-60, -3, -1, 40])
+            case["wscale"] = rng2.pick([-60, -3, -1, 40, 360, -360])   # +-360: the product of three raw weights over/underflows
         out.append(case)
     return out
 
